@@ -142,7 +142,8 @@ def gen_spec(rng, n_nodes=None, named_edges=True, allow_meta=True, want_disc=Non
         node = dict(name=nm, kind=kind, parents=parents, named=named,
                     value=(100 + i) if kind == 'const' else None,
                     observed=(1000 + i) if kind in ('sim', 'summary') and rng.random() < (0.75 if kind == 'sim' else 0.2) else None,
-                    uses_meta=bool(allow_meta and kind in ('op', 'sim', 'summary') and rng.random() < 0.2))
+                    uses_meta=(rng.choice([True, True, 'off']) if (allow_meta and kind in ('op', 'sim', 'summary') and rng.random() < 0.3)
+                               else False))
         nodes.append(node)
     return nodes
 
@@ -175,6 +176,8 @@ def build_model(spec, rec, order=None):
             m.add_edge(p, nm, kw)
         if nd.get('uses_meta'):
             r.uses_meta = True
+            if nd['uses_meta'] == 'off':
+                r.uses_meta = False      # the declaration is withdrawn: the flag stays in the state with a false value
         refs[nm] = r
     return m, refs
 
